@@ -3,7 +3,10 @@ generated histories of API calls with a recording scheduler and a unit-count ter
 
 case = {"started": bool, "ops": [op, ...]}
   op = ["add", script, co]      cooperate(iterator) (co=False) / coiterate(iterator) (co=True)
-                                script = list of "y" (yield a value) | ["d", j] (yield Deferred j) | "r" (raise);
+                                script = list of "y" (yield a value) | ["d", j] (yield Deferred j) | "r" (raise)
+                                | ["sc", j] / ["sp", j]: yield Deferred j that (unless the history fired j earlier) has already
+                                  been FIRED but whose callback chain is suspended — "sc": a callback returned an unfired
+                                  Deferred, "sp": it was pause()d — and delivers its result only at ["fire", j, ok];
                                 StopIteration at the end of the script
        ["wd", t] ["pause", t] ["resume", t] ["stop", t]      calls on the CooperativeTask of task t
        ["tick", n]              call the pending scheduled call; the terminator turns true after n work units
@@ -75,10 +78,30 @@ def impl(case) -> str:
         return term
 
     defs = {}
+    resolve = {}          # j -> deliver(ok) for Deferreds that are fired but whose chain is suspended
+    resolved = set()
 
-    def getd(j):
+    def getd(j, kind="d"):
         if j not in defs:
-            defs[j] = defer.Deferred()
+            if kind == "sc":
+                inner = defer.Deferred()
+                d = defer.succeed(None)
+                d.addCallback(lambda _: inner)
+                resolve[j] = lambda ok: inner.callback(None) if ok else inner.errback(TFailure(DefFail(j)))
+            elif kind == "sp":
+                cell = {}
+                d = defer.Deferred()
+                d.pause()
+                d.callback(None)
+                d.addCallback(lambda _: cell["r"])
+
+                def deliver(ok, d=d, cell=cell):
+                    cell["r"] = None if ok else TFailure(DefFail(j))
+                    d.unpause()
+                resolve[j] = deliver
+            else:
+                d = defer.Deferred()
+            defs[j] = d
         return defs[j]
 
     class It:
@@ -98,7 +121,7 @@ def impl(case) -> str:
                 return self.i
             if a == "r":
                 raise Boom()
-            return getd(a[1])
+            return getd(a[1], a[0])
 
     def res(r, it):
         if r is it:
@@ -171,8 +194,11 @@ def impl(case) -> str:
         elif k == "fire":
             j, ok = op[1], op[2]
             d = getd(j)
-            if not d.called:
-                if ok:
+            if j not in resolved:
+                resolved.add(j)
+                if j in resolve:
+                    resolve[j](ok)
+                elif ok:
                     d.callback(None)
                 else:
                     d.errback(TFailure(DefFail(j)))
@@ -454,7 +480,7 @@ def _script(rng, nextj, maxlen=5):
         if r < 0.55:
             s.append("y")
         elif r < 0.9:
-            s.append(["d", nextj[0]])
+            s.append([rng.choice(["d", "d", "d", "sc", "sp"]), nextj[0]])
             nextj[0] += 1
         else:
             s.append("r")
@@ -527,6 +553,14 @@ def gen(rng, tier):
                 ops = [["add", [["d", 0], "y"], False]] + ([["wd", 0]] if wd else []) + \
                       [["tick", 1], how, ["fire", 0, ok], ["wd", 0], ["pause", 0], ["resume", 0], ["stop", 0]]
                 cases.append({"started": True, "ops": ops})
+    # a yielded Deferred that has already fired but whose callback chain is suspended (chained to an unfired Deferred /
+    # paused): the task must not be advanced until the chain delivers, and a late failure must reach whenDone
+    for kind in ("sc", "sp"):
+        for ok in (True, False):
+            for other in (False, True):
+                ops = [["add", [[kind, 0], "y", "y"], False]] + ([["add", ["y", "y", "y"], False]] if other else []) + \
+                      [["wd", 0], ["tick", 1], ["tick", 2], ["tick", 3], ["fire", 0, ok], ["tick", 3], ["tick", 3]]
+                cases.append({"started": True, "ops": ops})
     # bounded-exhaustive: short histories over a small alphabet on three fixed tasks
     alpha = [["tick", 1], ["tick", 2], ["pause", 0], ["resume", 0], ["stop", 1], ["fire", 0, True], ["fire", 0, False],
              ["cstop"], ["cstart"], ["wd", 1], ["pause", 1], ["resume", 1]]
@@ -556,6 +590,9 @@ def corpus():
         # found while modelling: stop() a task that waits on a Deferred, then the Deferred fails
         {"started": True, "ops": [["add", [["d", 0], "y"], False], ["wd", 0], ["tick", 1], ["stop", 0],
                                   ["fire", 0, False], ["pause", 0], ["wd", 0]]},
+        # already-fired Deferreds whose chain is suspended, resolved later with failure / success
+        {"started": True, "ops": [["add", [["sc", 0], "y"], False], ["add", [["sp", 1], "y"], False], ["wd", 0], ["wd", 1],
+                                  ["tick", 2], ["tick", 2], ["tick", 2], ["fire", 0, False], ["fire", 1, True], ["tick", 4]]},
         # removal during the round: the next task is skipped once, never starved
         {"started": True, "ops": [["add", [], False], ["add", ["y", "y"], False], ["add", ["y", "y"], False],
                                   ["tick", 1], ["tick", 1], ["tick", 1], ["tick", 5]]},
@@ -653,7 +690,8 @@ SPEC = Spec(
          "Deferred stopped/paused/scheduler-stopped and the Deferred then fired either way; every history of length <= 3 "
          "(quick; length 3 sampled 35%) / <= 4 (thorough; length 4 sampled 50%) over a 12-letter alphabet on three fixed "
          "tasks; random histories of 5-45 calls over <= 8 tasks (scripts of plain yields, Deferred yields, raise), ticks of "
-         "1-20 work units, Deferreds fired with success or failure before or after being yielded, balanced pause/resume, "
+         "1-20 work units, Deferreds fired with success or failure before or after being yielded, yielded Deferreds that are already fired "
+         "but whose chain is suspended (chained to an unfired Deferred / paused) and resolved later either way, balanced pause/resume, "
          "plus a stream with unmatched resume() (correspondence only); non-trivial = at least two work units and one "
          "completion Deferred fired; distinct by (case, observation)",
     trusted=["hand-written model coq/C11/Model.v (tied by this correspondence run only)",
